@@ -15,7 +15,7 @@ import (
 )
 
 const c15Data = `{"@graph":[
- {"@id":"http://shop.example/o1","@type":"http://shop.example/Order","http://shop.example/customer":"ACME","http://shop.example/total":"10","http://shop.example/item":[{"@id":"http://shop.example/i1"},{"@id":"http://shop.example/i2"}]},
+ {"@id":"http://shop.example/o1","@type":"http://shop.example/Order","http://shop.example/customer":"ACME","http://shop.example/total":"10","http://shop.example/count":3,"http://shop.example/item":[{"@id":"http://shop.example/i1"},{"@id":"http://shop.example/i2"}]},
  {"@id":"http://shop.example/o2","@type":"http://shop.example/Order","http://shop.example/customer":"Bolt"},
  {"@id":"http://shop.example/o3","@type":"http://shop.example/Order","http://shop.example/total":"7","http://shop.example/note":"rush"},
  {"@id":"http://shop.example/i1","@type":"http://shop.example/Item","http://shop.example/sku":"A-1"},
@@ -128,6 +128,18 @@ func TestReplayC15Rewrites(t *testing.T) {
 	c15Family("and with or in one mapping", []c15Variant{
 		{"keys: and, or", body("targetClass", "message", "and", "or")},
 		{"keys: or, and", body("targetClass", "message", "or", "and")},
+	}, t)
+	// 2b. an alias for a built-in prefix, in the positions where a compact IRI is an argument (datatype, property comparison)
+	dt := func(prefix, decl string) string {
+		return "#%Validation Profile 1.0\nprofile: Shop\nprefixes:\n  shop: http://shop.example/\n" + decl + "violation:\n  - total-is-a-long\n  - total-is-an-integer\n  - customer-is-a-string\nvalidations:\n" +
+			"  total-is-a-long:\n    targetClass: shop.Order\n    message: m\n    propertyConstraints:\n      shop.count:\n        datatype: " + prefix + ".long\n" +
+			"  total-is-an-integer:\n    targetClass: shop.Order\n    message: m\n    propertyConstraints:\n      shop.count:\n        datatype: " + prefix + ".integer\n" +
+			"  customer-is-a-string:\n    targetClass: shop.Order\n    message: m\n    propertyConstraints:\n      shop.customer:\n        datatype: " + prefix + ".string\n"
+	}
+	c15Family("alias of the built-in xsd prefix in datatype", []c15Variant{
+		{"xsd.*", dt("xsd", "")},
+		{"xs.* with xs declared as the XML Schema namespace", dt("xs", "  xs: http://www.w3.org/2001/XMLSchema#\n")},
+		{"xsd.* with xsd declared again", dt("xsd", "  xsd: http://www.w3.org/2001/XMLSchema#\n")},
 	}, t)
 	// 4. scalar and collection style
 	quoted := strings.NewReplacer("targetClass: shop.Order", "targetClass: \"shop.Order\"", "message: no customer", "message: 'no customer'", "minCount: 1", "minCount: 1 # at least one").Replace(v("shop"))
